@@ -111,3 +111,31 @@ def run (s : DecState) : List PFrame → DecState × List Packet
     (r'.1, r.2 ++ r'.2)
 
 end AsamCmp
+
+namespace AsamCmp
+
+/-- `Decoder::decode` on a buffer (`none` = null pointer).  `tecmp` is the stateless TECMP path
+    (`TECMP::Decoder::Decode`), a parameter here and instantiated in `Tecmp.lean`. -/
+def decodeWith (tecmp : Bytes → List Packet) (s : DecState) (buf : Option Bytes) : DecState × List Packet :=
+  match buf with
+  | none => (s, [])
+  | some b =>
+    if b.length < 8 then (s, [])
+    else if byteAt b 0 = 0 then (s, tecmp b)
+    else step s (parseFrame b)
+
+/-- a whole history of buffers -/
+def decodeAll (tecmp : Bytes → List Packet) (s : DecState) : List (Option Bytes) → DecState × List Packet
+  | [] => (s, [])
+  | b :: bs =>
+    let r := decodeWith tecmp s b
+    let r' := decodeAll tecmp r.1 bs
+    (r'.1, r.2 ++ r'.2)
+
+/-- the endpoint a buffer addresses, if it is a capture-module frame at all -/
+def bufEp (buf : Option Bytes) : Option Ep :=
+  match buf with
+  | none => none
+  | some b => if b.length < 8 then none else if byteAt b 0 = 0 then none else some (parseFrame b).ep
+
+end AsamCmp
